@@ -34,6 +34,8 @@ fn query_points(tier: Tier) -> Vec<usize> {
         Tier::Quick => {
             v.extend(2..=3000);
             v.extend(99_000..=101_000);
+            // regression points of the repaired t-quantile defect (statrs' inverse cdf fails there)
+            v.extend([49_519, 87_818]);
             let mut x = 3000.0_f64;
             while x < 99_000.0 {
                 v.push(x.ceil() as usize);
